@@ -24,7 +24,9 @@ RULE = ('contents: every subset-overlay of the nine format signatures (images.SI
         'read-size sequences (1, 17, 64, 512, 4096, 65536, 1 MiB, random with empty reads; always a final empty read); '
         'the decision (format / formats) is sampled after every read and after close; plus sequences in one process: '
         'a valid image of each format (and 2 KiB of zeros) inspected first, then short / empty / other-format '
-        'streams, whose decisions must be those of the stream alone. A case is non-trivial when a '
+        'streams, whose decisions must be those of the stream alone; and text VMDK descriptors with the createType '
+        'line at offsets 64..4097 and beyond 256 KiB x small allowed_formats x reads of 1..512 bytes (no revision '
+        'within a read sequence). A case is non-trivial when a '
         'non-raw inspector matched, or a decision was reached before the last read, or allowed_formats excludes raw; '
         'distinct by (content digest, allowed_formats, read sizes)')
 TRUSTED_BASE = [
@@ -86,6 +88,7 @@ def gen_cases(ctx):
         for al in alloweds:
             for sizes in rng.sample(rs, min(len(rs), 2 if ctx.quick else 4)):
                 out.append((label, data, al, sizes))
+    out += G.c03_text_descriptors(rng, ctx.quick)
     for label, data in G.c03_huge_contents(rng, ctx.quick):
         n = len(data)
         for al, sizes in [(None, [65536] * (n // 65536 + 2)), (['vhdx', 'raw'], [1 << 20] * (n // (1 << 20) + 2)),
@@ -350,6 +353,10 @@ def search(ctx, seeds, full=False):
                 run(s.get('label', 'seed'), data, s.get('allowed'), s['sizes'], priors_of(s))
         rounds = (2 if full else 1) if ctx.quick else (4 if full else 2)
         for _ in range(rounds):
+            for label, data, al, sizes in G.c03_text_descriptors(rng, ctx.quick):
+                if len(fresh) >= 8:
+                    break
+                run(label, data, al, sizes)
             sequences(2)
             contents = G.c03_contents(rng, ctx.quick)
             if full or not ctx.quick:
